@@ -33,6 +33,12 @@
 (*                              NReaders reader processes in that window).  Any writer action or worker step on  *)
 (*                              the same key may run in between; the late fill re-installs the OLD value+expiry  *)
 (*                              and every later get() is served from the cache fast path.                         *)
+(*   Dev_EvictJournalOutsideLock (seeded-change class, not in the code): the eviction callback erases the expired*)
+(*                              key from memory under _mutex, RELEASES it, and journals the 'D' tombstone        *)
+(*                              afterwards.  WorkerEvict is then two actions (WorkerEvictErase, WorkerJournal with*)
+(*                              the key in `pendD`); a writer that re-creates the key in between gets its 'S'/'E' *)
+(*                              record in FRONT of the tombstone: every read of the running process is right, but *)
+(*                              after close + reopen the live key is gone (the restart half of Inv_Reads).        *)
 (* Concurrency reading: every API call of the code holds _mutex for its whole body, so concurrent callers are    *)
 (* interleavings of these atomic actions (writers, readers, eviction worker); only a flag that splits a critical  *)
 (* section adds interleavings.                                                                                     *)
@@ -42,7 +48,7 @@ EXTENDS KvAbs, TLC
 CONSTANTS NK, NV, MaxTime, MaxTtl, MaxOps, CacheMax,
           OpKinds, WorkerOn,
           Dev_ExpiredKeyResurrected, Dev_ReplayDropsPerRecord,
-          Dev_CacheFillOutsideLock, NReaders,
+          Dev_CacheFillOutsideLock, NReaders, Dev_EvictJournalOutsideLock,
           Emit
 
 Keys == 1..NK
@@ -54,8 +60,9 @@ PrefixKeys == IF NK >= 2 THEN <<1, 2>> ELSE <<1>>
 MaxTid == MaxOps + 2 * NK + 2
 
 VARIABLES kv, expiry, cache, timers, queue, snap, dlog, now, up, m, nops, hist,
-          pendFill      \* Dev_CacheFillOutsideLock: value copies of readers that have released _mutex and not yet filled the cache
-vars == <<kv, expiry, cache, timers, queue, snap, dlog, now, up, m, nops, hist, pendFill>>
+          pendFill,     \* Dev_CacheFillOutsideLock: value copies of readers that have released _mutex and not yet filled the cache
+          pendD         \* Dev_EvictJournalOutsideLock: keys erased by the eviction worker whose 'D' record is not yet journalled
+vars == <<kv, expiry, cache, timers, queue, snap, dlog, now, up, m, nops, hist, pendFill, pendD>>
 
 O(op, k, v, d, t) == [op |-> op, k |-> k, v |-> v, d |-> d, t |-> t, ks |-> <<>>, vs |-> <<>>]
 OB(op, ks, vs, d) == [op |-> op, k |-> 0, v |-> 0, d |-> d, t |-> 0, ks |-> ks, vs |-> vs]
@@ -78,13 +85,13 @@ CacheUpd(c, k, v, e) ==            \* updateCache: set of possible results (vict
 
 Init == /\ kv = [k \in Keys |-> 0] /\ expiry = [k \in Keys |-> NoExp] /\ cache = [k \in Keys |-> NoC]
         /\ timers = {} /\ queue = <<>> /\ snap = [k \in Keys |-> AbsentL] /\ dlog = <<>>
-        /\ now = 0 /\ up = TRUE /\ m = [k \in Keys |-> NoKey] /\ nops = 0 /\ hist = <<>> /\ pendFill = {}
+        /\ now = 0 /\ up = TRUE /\ m = [k \in Keys |-> NoKey] /\ nops = 0 /\ hist = <<>> /\ pendFill = {} /\ pendD = {}
 
 (* bookkeeping common to all controllable steps: Abs effect, step count, history *)
 Did(o) == /\ m' = AbsEff(o, m, now, FALSE)
           /\ nops' = nops + 1
           /\ hist' = (IF Emit THEN Append(hist, o) ELSE hist)
-          /\ UNCHANGED pendFill
+          /\ UNCHANGED <<pendFill, pendD>>
 Can(kind) == up /\ nops < MaxOps /\ kind \in OpKinds
 
 (* ------------------------------------------------------------------ writes *)
@@ -201,43 +208,55 @@ GetRead(k) ==
        THEN pendFill' = pendFill \cup {[k |-> k, val |-> kv[k], exp |-> expiry[k].exp]}     \* copy taken, _mutex released
        ELSE UNCHANGED pendFill
     /\ m' = m /\ nops' = nops + 1 /\ hist' = (IF Emit THEN Append(hist, O("get", k, 0, 0, 0)) ELSE hist)
-    /\ UNCHANGED <<kv, expiry, cache, timers, queue, snap, dlog, now, up>>
+    /\ UNCHANGED <<kv, expiry, cache, timers, queue, snap, dlog, now, up, pendD>>
 GetFill(r) ==
     /\ up /\ Dev_CacheFillOutsideLock /\ r \in pendFill
     /\ cache' \in CacheUpd(cache, r.k, r.val, r.exp)                                       \* ... filled later, without it
     /\ pendFill' = pendFill \ {r}
-    /\ UNCHANGED <<kv, expiry, timers, queue, snap, dlog, now, up, m, nops, hist>>
+    /\ UNCHANGED <<kv, expiry, timers, queue, snap, dlog, now, up, m, nops, hist, pendD>>
 
 (* ------------------------------------------------------------------ time, eviction path *)
 TimePasses(d) ==
     /\ nops < MaxOps /\ "tick" \in OpKinds /\ now + d <= MaxTime
     /\ now' = now + d
     /\ nops' = nops + 1 /\ hist' = (IF Emit THEN Append(hist, O("tick", 0, 0, d, 0)) ELSE hist)
-    /\ UNCHANGED <<kv, expiry, cache, timers, queue, snap, dlog, up, m, pendFill>>
+    /\ UNCHANGED <<kv, expiry, cache, timers, queue, snap, dlog, up, m, pendFill, pendD>>
 
 Fire(t) == /\ WorkerOn /\ up /\ t \in timers
            /\ timers' = timers \ {t} /\ queue' = Append(queue, t)
-           /\ UNCHANGED <<kv, expiry, cache, snap, dlog, now, up, m, nops, hist, pendFill>>
+           /\ UNCHANGED <<kv, expiry, cache, snap, dlog, now, up, m, nops, hist, pendFill, pendD>>
 
 Job == Head(queue)
 WorkerStale == /\ WorkerOn /\ up /\ queue # <<>>
                /\ (~HasExp(Job.k) \/ expiry[Job.k].tid # Job.tid)
                /\ queue' = Tail(queue)
-               /\ UNCHANGED <<kv, expiry, cache, timers, snap, dlog, now, up, m, nops, hist, pendFill>>
+               /\ UNCHANGED <<kv, expiry, cache, timers, snap, dlog, now, up, m, nops, hist, pendFill, pendD>>
 WorkerReArm == /\ WorkerOn /\ up /\ queue # <<>>
                /\ HasExp(Job.k) /\ expiry[Job.k].tid = Job.tid /\ expiry[Job.k].exp > now
                /\ LET tid == Fresh(UsedTids(timers, queue, expiry)) IN
                   /\ timers' = timers \cup {[tid |-> tid, k |-> Job.k]}
                   /\ expiry' = [expiry EXCEPT ![Job.k].tid = tid]
                /\ queue' = Tail(queue)
-               /\ UNCHANGED <<kv, cache, snap, dlog, now, up, m, nops, hist, pendFill>>
-WorkerEvict == /\ WorkerOn /\ up /\ queue # <<>>
+               /\ UNCHANGED <<kv, cache, snap, dlog, now, up, m, nops, hist, pendFill, pendD>>
+WorkerEvict == /\ WorkerOn /\ up /\ queue # <<>> /\ ~Dev_EvictJournalOutsideLock
                /\ HasExp(Job.k) /\ expiry[Job.k].tid = Job.tid /\ expiry[Job.k].exp <= now
                /\ kv' = [kv EXCEPT ![Job.k] = 0] /\ expiry' = [expiry EXCEPT ![Job.k] = NoExp]
                /\ cache' = [cache EXCEPT ![Job.k] = NoC]
-               /\ dlog' = LogApp(dlog, <<R("D", Job.k, 0, Inf)>>)
+               /\ dlog' = LogApp(dlog, <<R("D", Job.k, 0, Inf)>>)          \* erase + journal under ONE _mutex hold
                /\ queue' = Tail(queue)
-               /\ UNCHANGED <<timers, snap, now, up, m, nops, hist, pendFill>>
+               /\ UNCHANGED <<timers, snap, now, up, m, nops, hist, pendFill, pendD>>
+(* Dev_EvictJournalOutsideLock: the same step as two critical sections *)
+WorkerEvictErase == /\ WorkerOn /\ up /\ queue # <<>> /\ Dev_EvictJournalOutsideLock
+                    /\ HasExp(Job.k) /\ expiry[Job.k].tid = Job.tid /\ expiry[Job.k].exp <= now
+                    /\ kv' = [kv EXCEPT ![Job.k] = 0] /\ expiry' = [expiry EXCEPT ![Job.k] = NoExp]
+                    /\ cache' = [cache EXCEPT ![Job.k] = NoC]
+                    /\ pendD' = pendD \cup {Job.k}                            \* _mutex released, tombstone still to be written
+                    /\ queue' = Tail(queue)
+                    /\ UNCHANGED <<timers, snap, dlog, now, up, m, nops, hist, pendFill>>
+WorkerJournal(k) == /\ WorkerOn /\ up /\ Dev_EvictJournalOutsideLock /\ k \in pendD
+                    /\ dlog' = LogApp(dlog, <<R("D", k, 0, Inf)>>)
+                    /\ pendD' = pendD \ {k}
+                    /\ UNCHANGED <<kv, expiry, cache, timers, queue, snap, now, up, m, nops, hist, pendFill>>
 
 (* ------------------------------------------------------------------ compaction, close, reopen *)
 Compact ==
@@ -255,7 +274,7 @@ Compact ==
 (* orderly shutdown: the worker drains its queue first (its steps are the Worker* actions), pending timers are *)
 (* cancelled, memory is gone                                                                                  *)
 Close ==
-    /\ Can("close") /\ queue = <<>> /\ pendFill = {}
+    /\ Can("close") /\ queue = <<>> /\ pendFill = {} /\ pendD = {}      \* shutdown joins the worker first
     /\ up' = FALSE /\ timers' = {}
     /\ kv' = [k \in Keys |-> 0] /\ expiry' = [k \in Keys |-> NoExp] /\ cache' = [k \in Keys |-> NoC]
     /\ Did(O("close", 0, 0, 0, 0))
@@ -292,7 +311,7 @@ Reopen ==
        /\ timers' = armed
     /\ up' = TRUE /\ queue' = <<>>
     /\ hist' = (IF Emit THEN Append(hist, O("open", 0, 0, 0, 0)) ELSE hist)
-    /\ UNCHANGED <<cache, snap, dlog, now, m, nops, pendFill>>
+    /\ UNCHANGED <<cache, snap, dlog, now, m, nops, pendFill, pendD>>
 
 Next == \/ \E k \in Keys, v \in Vals : Set(k, v)
         \/ \E k \in Keys, v \in Vals, d \in 1..MaxTtl : SetTtl(k, v, d)
@@ -303,7 +322,8 @@ Next == \/ \E k \in Keys, v \in Vals : Set(k, v)
         \/ Clear \/ RemovePrefix \/ Compact \/ Close \/ Reopen
         \/ \E d \in 1..MaxTime : TimePasses(d)
         \/ \E k \in Keys, i \in 1..MaxTid : Fire([tid |-> i, k |-> k])
-        \/ WorkerStale \/ WorkerReArm \/ WorkerEvict
+        \/ WorkerStale \/ WorkerReArm \/ WorkerEvict \/ WorkerEvictErase
+        \/ \E k \in Keys : WorkerJournal(k)
 Spec == Init /\ [][Next]_vars
 
 (* ------------------------------------------------------------------ refinement: every read path, every state *)
